@@ -28,6 +28,10 @@ type Canned struct {
 	// reads the request to its end before it ends the response - as handlers
 	// that answer early commonly do.
 	DrainBeforeEnd bool
+	// TrailerUpFront: Response.Trailer is filled in when Do returns, not when
+	// the body has been read to its end - what an HTTPClient that builds its
+	// responses in memory does (httptest.ResponseRecorder.Result()).
+	TrailerUpFront bool
 }
 
 func (n *Net) doCanned(c *Call, req *http.Request) (*http.Response, error) {
@@ -136,6 +140,9 @@ func (n *Net) doCanned(c *Call, req *http.Request) (*http.Response, error) {
 		}
 	}
 	announceTrailers(resp, c.K.DropTrailers)
+	if can.TrailerUpFront && can.Trailer != nil {
+		resp.Trailer = can.Trailer.Clone()
+	}
 	resp.Body = &respBody{e: e, resp: resp}
 	e.resp = resp
 	e.mu.Lock()
